@@ -48,7 +48,10 @@ func c13Case(ch choose.Chooser, rec *ev.Recorder, cfg walkCfg) error {
 	nt := false
 	for p := 0; p < nPlans; p++ {
 		known := len(r.m.certs)
-		plan := choose.Pick(ch, []string{"crash-before-submit", "crash-after-submit", "crash-after-submit", "restart", "db-loss", "db-loss"}, "plan")
+		plan := choose.Pick(ch, []string{"crash-before-submit", "crash-after-submit", "crash-after-submit", "restart", "db-loss", "db-loss", "contradiction"}, "plan")
+		if plan == "contradiction" {
+			return c13Contradiction(ch, rec, r, cfg)
+		}
 		r.trace = append(r.trace, "|"+plan)
 		crashed := ""
 		switch plan {
@@ -137,6 +140,75 @@ func c13Case(ch choose.Chooser, rec *ev.Recorder, cfg walkCfg) error {
 	rec.Case(nt, r.key())
 	if nt && rec.WantSample() {
 		rec.Sample(map[string]any{"history": r.key(), "certificates_received_by_agglayer": len(r.m.certs)})
+	}
+	return nil
+}
+
+// c13Contradiction: the Agglayer's records are made to contradict the node's (a foreign certificate at the height of the
+// node's last, non-error certificate; or the Agglayer has lost the node's last certificates). On restart the node must refuse.
+func c13Contradiction(ch choose.Chooser, rec *ev.Recorder, r *walkRes, cfg walkCfg) error {
+	d := rawDB(r.storageDir)
+	var h uint64
+	var id string
+	var st int
+	err := d.QueryRow("SELECT height, certificate_id, status FROM certificate_info ORDER BY height DESC LIMIT 1").Scan(&h, &id, &st)
+	d.Close()
+	if err != nil {
+		rec.Case(false, r.key()+"|contradiction-impossible")
+		return nil // nothing stored locally: no contradiction can be built
+	}
+	r.m.mu.Lock()
+	last := r.m.lastAtHeight(h)
+	kind := "none"
+	switch {
+	case last == nil || last.ID != common.HexToHash(id):
+		// the local record is not the Agglayer's latest for that height (e.g. a lost response): not a clean base
+	case agglayertypes.CertificateStatus(st) != agglayertypes.InError && ch.Bool("foreignCertificate"):
+		// a different certificate id for the same height while the local one is not in error
+		delete(r.m.byID, last.ID)
+		last.ID = common.BytesToHash(append([]byte("foreign"), last.ID[:20]...))
+		r.m.byID[last.ID] = last
+		kind = "foreign-certificate-at-local-height"
+	default:
+		// the Agglayer is behind: it has lost everything from the local height on
+		var keep []*mCert
+		for _, c := range r.m.certs {
+			if c.Cert.Height < h {
+				keep = append(keep, c)
+			} else {
+				delete(r.m.byID, c.ID)
+			}
+		}
+		r.m.certs = keep
+		r.m.lastSettled = nil
+		for _, c := range keep {
+			if c.Status == agglayertypes.Settled {
+				r.m.lastSettled = c
+			}
+		}
+		kind = "agglayer-behind-local"
+	}
+	r.m.mu.Unlock()
+	if kind == "none" {
+		rec.Case(false, r.key()+"|contradiction-impossible")
+		return nil
+	}
+	r.trace = append(r.trace, "|contradiction:"+kind)
+	before := len(r.m.certs)
+	node, err := newASNode(r.w, r.grpc, r.storageDir, cfg.node)
+	if err != nil {
+		return fmt.Errorf("restart: aggsender.New failed: %v", err)
+	}
+	r.node = node
+	serr := node.startup(80 * time.Millisecond)
+	rec.Class("plan_contradiction_" + kind)
+	rec.Case(true, r.key())
+	if serr == nil {
+		return fmt.Errorf("the node's records contradict the Agglayer's (%s: local last certificate %d/%s status %s) but start-up reconciliation proceeded\n  history: %s",
+			kind, h, id[:12], agglayertypes.CertificateStatus(st), r.key())
+	}
+	if len(r.m.certs) != before {
+		return fmt.Errorf("a certificate was submitted although start-up refused (%s)\n  history: %s", kind, r.key())
 	}
 	return nil
 }
